@@ -447,6 +447,29 @@ def sig_matches(finding, v):
     return True
 
 
+_INT_KEYS = ("evaluations", "distinct_nontrivial", "states", "transitions", "traces_validated_against_impl",
+             "obligations", "discharged", "programs", "disagreements_checked")
+
+
+def sanitise_coverage(cov):
+    """EVIDENCE.schema.json fixes the types of some coverage keys; a check that used one of those names for
+    something else (e.g. "obligations" for a table of hit counts) gets it renamed instead of an invalid file."""
+    for k in _INT_KEYS:
+        if k in cov and not (isinstance(cov[k], int) and not isinstance(cov[k], bool)):
+            cov[k + "_detail"] = cov.pop(k)
+    if "exhaustive" in cov and not isinstance(cov["exhaustive"], bool):
+        cov["exhaustive_note"] = cov.pop("exhaustive")
+        cov["exhaustive"] = False
+    if "samples" in cov and not isinstance(cov["samples"], list):
+        cov["samples"] = [cov["samples"]]
+    for k in ("rule", "checker_cmd", "explanation"):
+        if k in cov and not isinstance(cov[k], str):
+            cov[k] = json.dumps(cov[k], default=str)
+    if "trusted_base" in cov and not (isinstance(cov["trusted_base"], list) and all(isinstance(x, str) for x in cov["trusted_base"])):
+        cov["trusted_base_detail"] = cov.pop("trusted_base")
+    return cov
+
+
 def finish(ctx, level, coverage, assumptions):
     """Print the verdict lines, write the evidence file and return the exit code."""
     findings = load_findings(ctx.pid)
@@ -473,7 +496,7 @@ def finish(ctx, level, coverage, assumptions):
         print("VIOLATION property=%s replay=%s  [%s] %s" % (ctx.pid, v["replay"], v["pred"], v["detail"]))
     for n in ctx.notes:
         print("NOTE:", n)
-    cov = dict(coverage)
+    cov = sanitise_coverage(dict(coverage))
     cov.setdefault("known_findings_seen", sorted(seen_known))
     cov.setdefault("notes", ctx.notes)
     ev = {"property_id": ctx.pid, "tier": ctx.tier, "seed": ctx.seed, "level": level, "coverage": cov,
